@@ -21,15 +21,27 @@ namespace Tbox.C16
 abbrev StateId := Int
 abbrev EventId := Int
 
-/-- a call on a machine (`Event.extra` is always `nullptr` in the harness) -/
-inductive Call where
-  | start | stop | restart
-  | run (e : EventId)
+/-- `tbox::flow::Event`: the id and the `extra` pointer (0 = `nullptr`, otherwise the tag of the
+object it points to).  The machine never looks at `extra`; it hands the event to every callback. -/
+structure Event where
+  id : EventId
+  extra : Nat := 0
 deriving Repr, DecidableEq
 
+/-- `Event()` as passed by `start()` and `stop()` -/
+def ev0 : Event := { id := 0, extra := 0 }
+
+/-- a call on a machine -/
+inductive Call where
+  | start | stop | restart
+  | run (e : Event)
+deriving Repr, DecidableEq
+
+/-- what a callback body does: observe / call machine `t` of the case (`none` = the machine that
+owns the callback, otherwise the index of the machine object) -/
 inductive SOp where
-  | obs
-  | call (c : Call)
+  | obs (t : Option Nat)
+  | call (t : Option Nat) (c : Call)
 deriving Repr, DecidableEq
 
 abbrev Script := List SOp
@@ -45,18 +57,21 @@ deriving Repr, DecidableEq
 
 inductive Kind where
   /-- the machine enters state `s` (callback invoked iff `has`) -/
-  | enter (s : StateId) (e : EventId) (has : Bool)
-  | exit (s : StateId) (e : EventId) (has : Bool)
+  | enter (s : StateId) (e : Event) (has : Bool)
+  | exit (s : StateId) (e : Event) (has : Bool)
   /-- transition action of route `ridx` of state `s` (`none`: transition chosen by a handler) -/
-  | action (s : StateId) (ridx : Option Nat) (e : EventId) (has : Bool)
-  | guard (s : StateId) (ridx : Nat) (e : EventId) (res : Bool)
+  | action (s : StateId) (ridx : Option Nat) (e : Event) (has : Bool)
+  | guard (s : StateId) (ridx : Nat) (e : Event) (res : Bool)
   /-- event handler of state `s` registered for `key` (`none` = the default handler) -/
-  | handler (s : StateId) (key : Option EventId) (e : EventId) (ret : Int)
-  | notify (src dst : StateId) (e : EventId) (has : Bool)
-  | obs (v : View)
-  /-- a call made from inside a callback: result (`false` for `stop`, which returns `void`),
-  view before and after -/
-  | call (c : Call) (res : Bool) (before after : View)
+  | handler (s : StateId) (key : Option EventId) (e : Event) (ret : Int)
+  | notify (src dst : StateId) (e : Event) (has : Bool)
+  | obs (t : Option Nat) (v : View)
+  /-- a call made from inside a callback on machine `t`: result (`false` for `stop`, which
+  returns `void`), view of `t` before and after -/
+  | call (t : Option Nat) (c : Call) (res : Bool) (before after : View)
+  /-- a callback addressed machine `t`, which is neither its own machine nor one of its
+  ancestors: outside the tree model (the arena model executes such calls) -/
+  | foreign (t : Nat)
   /-- behaviour the model does not describe (never produced from reachable states: theorem) -/
   | unmodelled
 deriving Repr, DecidableEq
@@ -80,7 +95,7 @@ structure Guard where
   script : Script
 deriving Repr, DecidableEq
 
-def Guard.eval (g : Guard) (e : EventId) : Bool := g.trueOn.contains e
+def Guard.eval (g : Guard) (e : Event) : Bool := g.trueOn.contains e.id
 
 structure Handler where
   tbl : List (EventId × Int)
@@ -88,8 +103,8 @@ structure Handler where
   script : Script
 deriving Repr, DecidableEq
 
-def Handler.eval (h : Handler) (e : EventId) : Int :=
-  match h.tbl.find? (fun p => p.1 == e) with
+def Handler.eval (h : Handler) (e : Event) : Int :=
+  match h.tbl.find? (fun p => p.1 == e.id) with
   | some p => p.2
   | none => h.dflt
 
@@ -101,7 +116,7 @@ structure Route where
 deriving Repr, DecidableEq
 
 /-- `item.event_id != ANY_EVENT_ID && item.event_id != event.id` negated -/
-def Route.matchesEvent (r : Route) (e : EventId) : Bool := r.ev == 0 || r.ev == e
+def Route.matchesEvent (r : Route) (e : Event) : Bool := r.ev == 0 || r.ev == e.id
 
 structure StateDef (Sub : Type) where
   id : StateId
@@ -114,6 +129,8 @@ structure StateDef (Sub : Type) where
   sub : Option Sub
 
 structure MachOf (R Sub : Type) where
+  /-- index of the machine object in the case (what script targets refer to) -/
+  mid : Nat
   init : StateId
   states : List (StateDef Sub)
   cb : Option Script
@@ -154,17 +171,18 @@ end MachOf
 def optInt (o : Option Int) : Int := o.getD (-1)
 
 /-- the public API of a (sub-)machine object as the parent uses it: new object value, return
-value, trace.  Both the model and the reference semantics are written against it. -/
-structure SubOps (Sub : Type) where
-  start : Sub → Sub × Bool × Trace
-  stop : Sub → Sub × Trace
-  run : Sub → EventId → Sub × Bool × Trace
+value, trace.  `C` is what a sub-machine is told about its ancestors (all of them are inside a
+call when they call down).  Both the model and the reference semantics are written against it. -/
+structure SubOps (C Sub : Type) where
+  start : C → Sub → Sub × Bool × Trace
+  stop : C → Sub → Sub × Trace
+  run : C → Sub → Event → Sub × Bool × Trace
   isTerminated : Sub → Bool
   isRunning : Sub → Bool
 
 /-- there is no machine of type `Empty` -/
-def emptyOps : SubOps Empty :=
-  { start := fun x => x.elim, stop := fun x => x.elim, run := fun x _ => x.elim, isTerminated := fun x => x.elim,
+def emptyOps {C : Type} : SubOps C Empty :=
+  { start := fun _ x => x.elim, stop := fun _ x => x.elim, run := fun _ x _ => x.elim, isTerminated := fun x => x.elim,
     isRunning := fun x => x.elim }
 
 /-- a view while the machine is running -/
